@@ -25,6 +25,8 @@ LINES = [("h", l) for l in range(1, 7)] + [("l", m) for m in MARKS] + [("hr", No
 FILLERS = [
     "{X}", "'''{X}'''", "''{X}''", "[[{X}]]", "{{{{{X}}}}}", "<b>{X}</b>", "<nowiki>{X}</nowiki>",
     "{X}\n{Y}", "[[a|{X}]]", '<span class="c">{X}</span>', "{{{{#if:1|{X}}}}}", "{X} <!-- c -->",
+    # plain text with a '>' and a '<' followed by a word that merely begins like a tag name (u, b, i, s, p, a, q ...)
+    "{X} -> a <under b",
 ]
 TAG_RE = re.compile(r"[HITU]\d+")
 
